@@ -1,5 +1,6 @@
 import chunk as _c
 def run(chk):
     _c.run(chk)
-def replay(chk, path):
-    _c.replay(chk, path)
+
+
+from replaykit import replay  # noqa: E402,F401
